@@ -264,6 +264,9 @@ func (g *G) Block(depth int, top bool) *schema.BlockSchema {
 	if g.O.Mods && g.coin(0.5) {
 		nl = 2
 	}
+	if nl == 2 && g.coin(0.25) {
+		nl = 3 // a third label: dependency-key and plain labels in every order
+	}
 	if top && g.coin(0.6) && nl == 0 {
 		nl = 1 + g.pick(2)
 	}
